@@ -428,6 +428,8 @@ fn run_index(ctx: &Ctx, kind: &'static str, idx: usize, rng: &mut Rng) -> Result
         }
     }
     let mut burst_left = 0usize;
+    // successful adds of this history (in a bucket-targeted long history they all go into one bucket)
+    let mut adds_ok = 0u64;
     // operation forced next (used to persist + reload right after an add that overflowed a full section:
     // the entry appended by the flush-and-retry path must reach the disk like any other)
     let mut force_next: Option<&'static str> = None;
@@ -512,6 +514,7 @@ fn run_index(ctx: &Ctx, kind: &'static str, idx: usize, rng: &mut Rng) -> Result
                 let b = bucket9(&k) as usize;
                 match res {
                     Ok(()) => {
+                        adds_ok += 1;
                         r.m.map.insert(k, loc);
                         r.m.removed.retain(|x| x != &k);
                         r.m.dirty[b] = true;
@@ -805,6 +808,7 @@ fn run_index(ctx: &Ctx, kind: &'static str, idx: usize, rng: &mut Rng) -> Result
         r.h.stats.add("histories.with_flush", 1);
     }
     if long {
+        r.h.stats.max("index.long.max_successful_adds_into_one_bucket", adds_ok);
         r.h.stats.add("histories.index-long.ops", n_ops as u64);
         r.h.stats.max("histories.index-long.max_ops", n_ops as u64);
         r.h.stats.max("index.max_keys_in_model", r.m.map.len() as u64);
@@ -2078,6 +2082,7 @@ fn main() {
     }
 
     if only_kind.is_none() {
+        let flushes_before_full = ctx.get_obs("index.long.max_successful_adds_into_one_bucket") >= (SECTION_CAP + 200) as u64 && ctx.get_obs("index.max_update_section_fill.long") < SECTION_CAP as u64;
         for k in [
             "index.ops.add_entry",
             "index.ops.update_entry",
@@ -2116,12 +2121,20 @@ fn main() {
             "dyn.key_derivation.agrees",
             "dyn.truncated_read_observed",
         ] {
-            if ctx.get_obs(k) == 0 {
+            // "a full update section" is a state of the implementation, not of the workload: when a history put far more
+            // than 1260 entries into one bucket and the section was still never observed full, the implementation merges
+            // earlier (which the statement allows: a flush is transparent) and the two floors about that state do not apply
+            let about_full_section = matches!(k, "histories.index-long.reached_full_section" | "index.ops_at_full_section.remove");
+            if ctx.get_obs(k) == 0 && !(about_full_section && flushes_before_full) {
                 ctx.inconclusive(&format!("workload never exercised {k}"));
             }
         }
         if ctx.get_obs("index.max_update_section_fill.long") < SECTION_CAP as u64 {
-            ctx.inconclusive("no bucket-targeted history filled the 1260-entry update section");
+            if flushes_before_full {
+                ctx.obs("index.implementation_never_leaves_a_full_update_section(merges earlier)", 1);
+            } else {
+                ctx.inconclusive("no bucket-targeted history filled the 1260-entry update section");
+            }
         }
     }
     ctx.set_extra("update_section_capacity_entries", json!(SECTION_CAP));
